@@ -8,6 +8,7 @@ mod treegen;
 mod c03;
 mod hist;
 mod c01;
+mod c07;
 
 fn main() {
     let args: Vec<String> = std::env::args().collect();
@@ -21,6 +22,7 @@ fn main() {
         "f32" => f32ops::main(rest),
         "c03" => c03::main(rest),
         "c01" => c01::main(rest),
+        "c07" => c07::main(rest),
         other => {
             eprintln!("unknown property {other}");
             std::process::exit(2);
